@@ -1,7 +1,7 @@
 """C13  Interactive parser: forks independent, accepts() exact, resume equals parse."""
 import os, tempfile, shutil, atexit
 from hypothesis import strategies as st
-from vlib.harness import Phase, Violation
+from vlib.harness import Phase, Violation, blame_lark
 from vlib import gram, gramgen
 from lark import Lark, Token, Tree
 from lark.exceptions import UnexpectedInput, UnexpectedToken, GrammarError
@@ -95,6 +95,7 @@ def trial_accepts(ip, names):
     return out
 
 
+@blame_lark
 def check(case, ctx):
     try:
         p, g, pool = build(case)
@@ -162,6 +163,7 @@ def check(case, ctx):
 
 
 # ------------------------------------------------------------------ lexer-driven sessions: fork + resume
+@blame_lark
 def check_session(case, ctx):
     try:
         p, g, pool = build(case)
